@@ -36,7 +36,7 @@ SALS = [9, 7, 7, 5, 3, 0, 0, -2, -5, 2 ** 63 - 100, -2 ** 63 + 100]      # ties,
 KIND_FLAGS = {"plain": (False, False), "ret": (False, True), "bare": (False, True),
               "fail": (True, False), "retfail": (True, False),
               "panic1": (True, False), "panic2": (True, False), "loop": (True, False),
-              "brk": (True, False), "cont": (True, False), "retpriv": (True, False)}
+              "brk": (True, False), "cont": (True, False), "retpriv": (True, False), "bigfail": (True, False)}
 
 
 def mk_rules(rng, k, kinds=("plain", "ret", "fail"), weights=(3, 3, 2), stop_p=0.0, distinct_sal=False):
@@ -237,6 +237,8 @@ SYMPTOM = {1: "crash", 2: "trace", 3: "error-flag", 4: "result-map", 5: "spec", 
 
 def err_rule_names(o):
     """the rule names a returned error mentions (`rule: "x" executed, error:` / `rule "x" executed, ...`)"""
+    if o.get("err_rules") is not None:
+        return sorted(o["err_rules"])
     return sorted(set(re.findall(r'rule:? "([^"]*)" executed', o.get("errmsg") or "")))
 
 
